@@ -121,11 +121,21 @@ impl Clone for BigRat {
 /// nearest float of a rational (opaque)
 pub uninterp spec fn rat_as_float(x: real) -> f64;
 
+/// integers up to 2^53 are exactly representable (trusted, A-float)
+pub axiom fn axiom_rat_as_float_exact(x: real)
+    ensures
+        is_integral(x) && -9007199254740992real <= x <= 9007199254740992real ==> f64_is_finite(rat_as_float(x)) && f64_real(rat_as_float(x)) == x,
+;
+
+
+
 /// `BigRat::from(f64)`: BigRational::from_float(value).unwrap() panics unless the float is finite (N11 target)
 #[verifier::external_body]
 pub fn vx_bigrat_from_f64(value: f64) -> (r: BigRat)
     requires
         f64_is_finite(value),
+    ensures
+        r@ == f64_real(value),
 {
     unimplemented!()
 }
